@@ -258,6 +258,30 @@ def r3_annotation(ctx):
                 args.add(e[2][3])
     ctx.ob(rule, n2, 'moves of `player` are classified for opposite(player)', args == {('call', OPP, (('p', 4),), None)},
            found=[show(a) for a in args], expected='opposite(player)', why='the side that may be in check after a move is the opponent of the mover')
+    # every listed move goes through the classification: each iteration of the loop calls it on the current element,
+    # and nobody else stores an effect
+    lo = Engine(facts, opaque={name}).run(n2)
+    its = [o for o in lo if o.kind == 'backedge']
+    every = bool(its)
+    for o in its:
+        calls = [e for e in o.events if e[0] == 'call' and e[1] == name]
+        nxt = [e for e in o.events if e[0] == 'call' and e[1].endswith('Iterator>::next')]
+        if len(calls) != 1 or not nxt:
+            every = False
+            continue
+        item = ('call', nxt[-1][1], nxt[-1][2], nxt[-1][3])
+        every = every and any(s == item for s in subterms(calls[0][2][1])) and calls[0][2][2] == ('ref', ('der', ('p', 3)))
+    exits = [o for o in lo if o.kind == 'return']
+    early = [o for o in exits if not any(c[0][0] == 'discr' and c[0][1][0] == 'call' and c[0][1][1].endswith('Iterator>::next') and c[1] == 0 for c in o.conds)]
+    ctx.ob(rule, n2, 'every listed move is classified: each iteration calls the classification on the current move, no early exit',
+           every and not early, found={'iteration paths': len(its), 'paths skipping the call': sum(1 for o in its if not [e for e in o.events if e[0] == 'call' and e[1] == name]),
+                                       'early exits': len(early)},
+           expected='for m in moves.iter_mut() { lazily_calculate_chess_move_effect(m, board, opponent) }',
+           why='every legal move listed must be annotated according to the position it produces; a shortcut that stamps some moves without '
+               'looking misses discovered checks')
+    setters = {f.name for f, b in facts.call_sites(CHESSMOVE + '::set_effect', crate='chess', kinds=('lib', 'bin'))}
+    ctx.ob(rule, CHESSMOVE + '::set_effect', 'effects are stored only by the classification routine', setters <= {name}, found=sorted(setters), expected=[name],
+           why='an effect written anywhere else is not derived from the position the move produces')
     n3 = MG + '::generate_moves_and_lazily_update_chess_move_effects'
     outs = Engine(facts, opaque={n2, GEN}).run(n3)
     ctx.touch(n3)
